@@ -2,10 +2,69 @@
 """Regenerates MANIFEST.json from the table below (kept next to the harnesses so the two cannot drift)."""
 import json, os
 V = os.path.dirname(os.path.abspath(__file__))
-SYMX = "bounded symbolic execution of the real Python code (symx: re-execution DSE, numeric shims) with z3 deciding every branch and the final assertion; counterexamples replayed on the unshimmed code"
-XH = "bounded symbolic execution of the real byte code with CrossHair 0.0.110 + z3 (symbolic str/int/bool), one solver-checked PEP-316 contract per obligation; counterexamples replayed in plain Python"
-CHECKS = {
- # id: (engine, design_ref, level text, level note)
-}
-def add(i, eng, ref, text, note):
-    CHECKS[i] = (eng, ref, text, note)
+SYMX = ("bounded symbolic execution of the repository's real Python code (symx: re-execution DSE with solver-backed "
+        "Fraction/float/Decimal/int stand-ins), z3 decides every branch and the final assertion; counterexamples replayed on the unshimmed code")
+XH = ("bounded symbolic execution of the real byte code with CrossHair 0.0.110 + z3 (symbolic str/int/bool), one solver-checked "
+      "PEP-316 contract per obligation; counterexamples replayed in plain Python")
+NOTE_SYMX = ("trusted: z3, the symx stand-ins (validated by the concrete differential run of the repository's own tests and by replay of every "
+             "counterexample on the real types), floats modelled as exact reals; bounds and cuts are listed in the evidence file")
+NOTE_XH = ("trusted: z3, CrossHair's string/int models (one engine defect in rstrip worked around and self-tested), the msdparser "
+           "tokenizer/escaper and Python codecs/OS as environment (model filesystem); bounds and cuts are listed in the evidence file")
+CHECKS = {}
+NA = {}
+
+
+def add(i, eng, ref, text):
+    CHECKS[i] = (eng, ref, text)
+
+
+add("C07", "symx", "4/C07", "ordering operators decided for all field values (unbounded); beat placement decided for symbolic player/measure index and keysound digits on enumerated measure skeletons; text scanning is outside")
+add("C08", "symx", "4/C08", "from_notes -> iterate round trip and canonical layout for 1-2 (thorough 3) notes with symbolic numerators over concrete denominators; solver acts mostly as a pruning enumerator of positions")
+add("C09", "symx", "4/C09", "group_notes / count_* equal a declarative two-pass reference on every stream of 3 (thorough 4) notes: kinds and columns by exhaustive case split, beats symbolic with all tie patterns, whole option space")
+add("C10", "symx", "4/C10", "ungroup(group(s)) restores the stream for every stream of 3 (thorough 4) notes and every option tuple; hand-built note-inside-hold sequences with symbolic beats")
+add("C11", "symx", "4/C11", "time_at equals the closed-form timeline for every placement of <=3 (thorough 4) events on the tick grid, all BPM values in [1,2000], all lengths/offsets, all 7 tags; monotonicity, offset shift, redundant BPM, bpm_at")
+add("C12", "symx", "4/C12", "beat_at/time_at round trip, pause interior, half-tick proximity, warp instants, monotonicity and independence from earlier events, for every placement of <=2 (thorough 3) events with concrete BPM sets and times on a fine integer grid")
+add("C13", "symx", "4/C13", "hittable equals the warp-union rule for every placement of <=3 (thorough 4) events; time_notes output decided for 1-2 symbolic notes x 3 options")
+add("C14", "symx", "4/C14", "Beat construction, snapping, operator overrides, 3-decimal text round trip for ALL integers, BeatValues/TimingData string round trips with symbolic ticks and 6-place decimals")
+
+for i, r in {"C01": "", "C02": "", "C03": "", "C04": "", "C05": "", "C06": "", "C15": "", "C16": "", "C17": "", "C18": "", "C19": "", "C20": ""}.items():
+    NA[i] = "CrossHair harness for this property is still being built in this working session (designed in DESIGN.md section 4); not claimed until its check runs clean"
+
+
+def main():
+    checks = []
+    for i in sorted(CHECKS):
+        eng, ref, text = CHECKS[i]
+        checks.append({
+            "property_id": i,
+            "quick_cmd": f"./run.py {i} --tier quick",
+            "thorough_cmd": f"./run.py {i} --tier thorough",
+            "evidence_file": f"/verif/evidence/{i}.json",
+            "replay_cmd_template": f"./run.py {i} --replay {{path}}",
+            "engine": eng,
+            "level_claimed": {"category": "model_checking", "text": "bounded symbolic model checking of the real code: " + text, "design_ref": "DESIGN.md " + ref},
+            "level_note": NOTE_SYMX if eng == "symx" else NOTE_XH,
+            "technique": SYMX if eng == "symx" else XH,
+        })
+    man = {
+        "version": 1,
+        "setup_cmd": "./setup.sh",
+        "hooks": {"guard": "GARCIA_SIMFILE_VERIF", "enable": "none needed: the checks drive the repository through its own seams (filesystem= parameters, _parse(iterator), direct construction of TimingData); no source hook exists",
+                  "baseline_off_cmd": "cd /repo && /venv/bin/python -m pytest -ra -q -p no:cacheprovider --timeout=900 --continue-on-collection-errors",
+                  "source_commits": [], "add_only": True},
+        "engines": [
+            {"name": "symx", "path": "/verif/vlib/symx.py", "serves_properties": sorted(i for i in CHECKS if CHECKS[i][0] == "symx"),
+             "kind_free_text": "dynamic symbolic execution by re-execution of the repository's modules (compiled from /repo on every run) with z3-backed numeric stand-ins"},
+            {"name": "xh", "path": "/verif/vlib/xh.py", "serves_properties": sorted(i for i in CHECKS if CHECKS[i][0] == "xh"),
+             "kind_free_text": "CrossHair (symbolic execution of Python byte code with z3) driven per obligation"},
+        ],
+        "checks": checks,
+        "not_applicable": [{"property_id": i, "reason": NA[i]} for i in sorted(NA) if i not in CHECKS],
+        "notes": "exit 3 = harness error (blind or broken check); inconclusive obligations are listed in the evidence and never counted as discharged. known_findings.json lists recorded genuine defects.",
+    }
+    json.dump(man, open(os.path.join(V, "MANIFEST.json"), "w"), indent=1)
+    print("MANIFEST.json written:", len(checks), "checks,", len(man["not_applicable"]), "not applicable")
+
+
+if __name__ == "__main__":
+    main()
